@@ -218,7 +218,7 @@ func (f *Frame) externalCall(callee *ssa.Function, args []string, argVals []ssa.
 		s, p := args[0], args[1]
 		return one(fmt.Sprintf("(ite (str.suffixof %s %s) (str.substr %s 0 (- (str.len %s) (str.len %s))) %s)", p, s, s, s, p, s))
 	case "strings.Repeat":
-		if e.unit.Safety && f.depth == 0 {
+		if e.unit.Safety {
 			e.safetyOrd["repeat"]++
 			e.oblige("safety", fmt.Sprintf("%s#safety[repeat#%d]", e.unit.Key(), e.safetyOrd["repeat"]), "repeat", reach, fmt.Sprintf("(>= %s 0)", args[1]), e.P.pos(in.Pos()))
 		}
@@ -228,8 +228,8 @@ func (f *Frame) externalCall(callee *ssa.Function, args []string, argVals []ssa.
 		return callOut{r, []string{res}, st}, true
 	case "errors.New", "fmt.Errorf":
 		r := e.symbolic(f.prefix+"err", callee.Signature.Results().At(0).Type(), st, reach)
-		e.assume(reach, fmt.Sprintf("(not (= (i_tag %s) 0))", r))
-		e.note("external model: %s returns a non-nil error", key)
+		e.assume(reach, fmt.Sprintf("(and (not (= (i_tag %s) 0)) (not (= (i_ref %s) 0)))", r, r))
+		e.note("external model: %s returns a non-nil error (a non-nil pointer to a standard-library error value)", key)
 		return callOut{reach, []string{r}, st}, true
 	case "fmt.Sprintf", "fmt.Sprint":
 		r := e.symbolic(f.prefix+"str", callee.Signature.Results().At(0).Type(), st, reach)
